@@ -22,7 +22,7 @@ def run(tier, seed):
              "/Length = byte count, no reference to an undefined object; its sensitivity is self-tested on seeded corruptions in every run) and (2) reload through the library "
              "comparing page count/order, boxes, rotation, extra entries (incl. a name with a space), resources (font loads, ExtGState values), operation sequences and info; "
              "non-trivial = >= 2 pages",
-        assumptions=["operation sequences come from C08's domain (4 representatives)", "the validator understands unfiltered and Flate xref/object streams only"],
+        assumptions=["operation sequences come from C08's domain (4 representatives; the longest one includes closed subpaths followed by curves from the subpath's start)", "the validator understands unfiltered and Flate xref/object streams only"],
         post=post, exhaustive=True)
 
 
